@@ -16,10 +16,10 @@ import z3
 _libm = ctypes.CDLL('libm.so.6')
 for _n in ('exp', 'erfc', 'erf', 'sin', 'cos', 'tan', 'sqrt', 'acos', 'asin', 'atan', 'log', 'floor', 'ceil', 'round', 'fabs', 'cbrt', 'sinh', 'cosh', 'tanh', 'log10', 'exp2', 'trunc'):
     getattr(_libm, _n).restype = ctypes.c_double; getattr(_libm, _n).argtypes = [ctypes.c_double]
-for _n in ('atan2', 'pow', 'fmod', 'fmin', 'fmax', 'hypot', 'copysign'):
+for _n in ('atan2', 'pow', 'fmod', 'fmin', 'fmax', 'hypot', 'copysign', 'nextafter'):
     getattr(_libm, _n).restype = ctypes.c_double; getattr(_libm, _n).argtypes = [ctypes.c_double, ctypes.c_double]
 LIBM1 = {'exp', 'erfc', 'erf', 'sin', 'cos', 'tan', 'sqrt', 'acos', 'asin', 'atan', 'log', 'floor', 'ceil', 'round', 'cbrt', 'sinh', 'cosh', 'tanh', 'log10', 'exp2', 'trunc'}
-LIBM2 = {'atan2', 'pow', 'fmod', 'hypot'}
+LIBM2 = {'atan2', 'pow', 'fmod', 'hypot', 'nextafter'}
 
 THROWERS = ('__cxa_throw', '__cxa_rethrow', '_ZSt20__throw_length_errorPKc', '_ZSt17__throw_bad_allocv', '_ZSt28__throw_bad_array_new_lengthv',
             '_ZSt24__throw_out_of_range_fmtPKcz', '_ZSt19__throw_logic_errorPKc', '_ZSt20__throw_out_of_rangePKc', '_ZSt24__throw_invalid_argumentPKc',
@@ -170,7 +170,7 @@ class Exec:
                 if k == 'ptr': return UNDEF
             return s.next_conc(st, name, ty)
         if k == 'int': v = iv(ty.a, z3.BitVec(s.fresh(name), ty.a)); sym = v[2]
-        elif k == 'double':
+        elif k in ('double', 'x86_fp80', 'float'):
             sym = z3.Real(s.fresh(name)) if s.mode == 'real' else z3.FP(s.fresh(name), F64); v = ('f', sym)
         elif k == 'ptr': return UNDEF
         else: raise Unsupported('fresh of %r' % ty)
@@ -207,7 +207,9 @@ class Exec:
         ty, init, const = g
         oid = st.alloc(s.mod.size(ty), '@' + nm); st.globals[nm] = oid
         p = P(init, s.mod)
-        if p.peek()[0] is not None and p.peek()[1] != ',' and not (p.peek()[0] == 'word' and p.peek()[1] in ('align', 'section', 'comdat')):
+        if p.peek() == ('word', 'zeroinitializer'):
+            st.mem[oid].zero.append((0, st.mem[oid].size))
+        elif p.peek()[0] is not None and p.peek()[1] != ',' and not (p.peek()[0] == 'word' and p.peek()[1] in ('align', 'section', 'comdat')):
             v = s.ev(st, None, s.dec.val(p, ty))
             if v != UNDEF: s.mem.store(st, s.mod.resolve(ty), v, ('p', oid, 0))
         else:
@@ -654,6 +656,7 @@ class Exec:
         if op == 'itofp':
             x = ev(st, fr, ins[3]); sg = ins[2] == 'sitofp'
             if isinstance(x[2], int): regs[dest] = ('f', float(to_signed(x[2], x[1]) if sg else x[2]))
+            elif s.mode == 'fpa': regs[dest] = ('f', s.uf('uf_itofp%d' % x[1], 1, [z3.BitVecSort(x[1])])(x[2]))      # abstract reading: conversions are arbitrary too
             elif s.mode == 'real': regs[dest] = ('f', z3.ToReal(z3.BV2Int(x[2], sg)))
             else: regs[dest] = ('f', z3.fpSignedToFP(RNE, x[2], F64) if sg else z3.fpUnsignedToFP(RNE, x[2], F64))
             fr.ip += 1; return
@@ -662,6 +665,7 @@ class Exec:
             if isinstance(x[1], float):
                 if x[1] != x[1] or abs(x[1]) >= 2.0**(w - (ins[2] == 'fptosi')): regs[dest] = s.fresh_val(st, INT(w), 'poison_fptoi', hidden=True)
                 else: regs[dest] = iv(w, int(x[1]))
+            elif s.mode == 'fpa': regs[dest] = s.fresh_val(st, INT(w), 'fptoi', hidden=True)
             elif s.mode == 'real':
                 X = x[1]; t = z3.If(X >= 0, z3.ToInt(X), -z3.ToInt(-X)); regs[dest] = ('i', w, z3.Int2BV(t, w))
             else: regs[dest] = ('i', w, z3.fpToSBV(z3.RTZ(), x[1], z3.BitVecSort(w)) if ins[2] == 'fptosi' else z3.fpToUBV(z3.RTZ(), x[1], z3.BitVecSort(w)))
